@@ -46,6 +46,7 @@ fn main() {
                 focus: arg(&args, "--focus").unwrap_or_default(),
                 out,
                 replay: arg(&args, "--replay"),
+                full_every: arg(&args, "--full-every").and_then(|s| s.parse().ok()).unwrap_or(0),
             };
             let r = detect::run(&o);
             eprintln!("detect: {} cases, {} disagreements, {} violations, {} contract violations",
